@@ -42,7 +42,16 @@ def demo_exit(demo_src, wt, slot):
     open(ct, "w").write(t)
     if os.path.exists(os.path.join(wt, "Cargo.lock")):
         shutil.copy(os.path.join(wt, "Cargo.lock"), os.path.join(d, "Cargo.lock"))
-    r = sh("cargo run --offline -q", cwd=d, env=dict(ENV, CARGO_TARGET_DIR="/tmp/kv_seeded_target_%d" % slot), timeout=1800)
+    rs = os.path.join(d, "run.sh")
+    if os.path.exists(rs):
+        # round-7 demos: a script (several profiles / toolchains / must-be-rejected programs)
+        t = open(rs).read()
+        t = re.sub(r'/tmp/(?:r\d+/)?wt_c\d+', wt, t)
+        t = re.sub(r'(CARGO_TARGET_DIR=)%s/target[A-Za-z0-9_/]*' % re.escape(wt), r'\1/tmp/kv_seeded_target_%d' % slot, t)
+        open(rs, "w").write(t)
+        r = sh("bash run.sh", cwd=d, timeout=3600)
+    else:
+        r = sh("cargo run --offline -q", cwd=d, env=dict(ENV, CARGO_TARGET_DIR="/tmp/kv_seeded_target_%d" % slot), timeout=1800)
     shutil.rmtree(d, ignore_errors=True)
     return r.returncode
 
